@@ -104,6 +104,8 @@ def make(e, rng):
         # sites listed several cells away from the reference cell (a legal description of the same structure)
         pos = pos + np.array([[rng.randint(-12, 12) for _ in range(3)] for _ in range(n)])
     labels = [Element[z].symbol + str(rng.choice([0, 1, 7, 12, 99, 100, 999, rng.randint(0, 999)])) for z in zs]
+    if rng.random() < 0.08:
+        labels = [l + rng.choice(["'", "'", "*", "A", "_a"]) for l in labels]        # primed / starred atom names (sugars, nucleosides)
     occ = np.array([rng.choice([1.0, 1.0, 0.5, 0.25]) for _ in range(n)])
     return Crystal(uc, sg, AsymmetricUnit([Element[z] for z in zs], pos, labels=labels, occupation=occ), titl="t%d" % e.number)
 
@@ -238,6 +240,18 @@ def judge(idx, seed):
                 r = compare(c, c2, fmt)
                 if r:
                     return f"{tag} {fmt} (second write, after the asymmetric unit was replaced): {r}", False
+        # the format named explicitly (fmt=) decides for writing and for reading alike, whatever the file is called
+        if seed % 3 == 0:
+            for name, fmt in (("structure.txt", "cif"), ("model.cif", "res"), ("model.res", "cif"), ("noext", "res")):
+                pf = os.path.join(tmp, name)
+                try:
+                    c.save(pf, fmt=fmt)
+                    cf = Crystal.load(pf, fmt=fmt)
+                except Exception as ex:  # noqa
+                    return f"{tag}: save/load of {name!r} with fmt={fmt!r} raised {type(ex).__name__}: {ex}", False
+                r = compare(c, cf, fmt)
+                if r:
+                    return f"{tag}: save/load of {name!r} with fmt={fmt!r}: {r}", False
         if len(e.symops) <= 48:
             p = os.path.join(tmp, rng.choice(["POSCAR", "POSCAR", "CONTCAR"]))
             try:
